@@ -1551,4 +1551,62 @@ example : SafeHistory [] [.new ⟨false, false, [3], [1, 0, 2]⟩, .ibin .mul 0 
     .bin .gt 0 (.lit ⟨false, false, [], [0]⟩), .reduce .sum 0 none true] := by
   simp [SafeHistory, OpSafe]
 
+/-! ### the two halves of a driver answer agree: `step` (sparse model) against `npSide` (NumPy spec) -/
+
+theorem nodupb_of_nodup : ∀ (l : List Nat), l.Nodup → nodupb l = true := by
+  intro l
+  induction l with
+  | nil => intro _; rfl
+  | cons a l ih =>
+    intro h
+    have := List.nodup_cons.mp h
+    simp only [nodupb, Bool.and_eq_true, Bool.not_eq_true', ih this.2, and_true]
+    simpa using this.1
+
+theorem wfb_of_WF (a : SV) (h : a.WF) : a.wfb = true := by
+  unfold SV.wfb
+  simp only [Bool.and_eq_true, List.all_eq_true, decide_eq_true_eq, bne_iff_ne, ne_eq]
+  exact ⟨nodupb_of_nodup _ h.1, fun p hp => h.2 p hp⟩
+
+theorem arithOf_fn (op : BinOp) (ar : Arith) (h : arithOf op = some ar) : op.fn = ar.fn := by
+  cases op <;> simp [arithOf] at h <;> subst h <;> rfl
+
+/-- For `v op w` with two float vectors (`+ − ×`): the object the sparse model allocates has exactly
+the dense image that the NumPy reference computes for the same protocol line — the first and the
+second field of the driver's answer describe the same array. -/
+theorem step_bin_agrees_with_npSide (s s' : Store) (op : BinOp) (ar : Arith) (a b : Nat) (x y : SV) (r : Res)
+    (hop : arithOf op = some ar) (hne : ar ≠ .truediv)
+    (ha : s[a]? = some (.sv x)) (hb : s[b]? = some (.sv y)) (hx : x.WF) (hy : y.WF)
+    (h : step s (.bin op a (.ref b)) = .ok (s', r)) :
+    ∃ c : SV, r = .obj s.length ∧ s' = s ++ [Obj.sv c] ∧ c.WF ∧
+      npSide s (.bin op a (.ref b)) = some (.ok (ND.vec c.toDense)) := by
+  have hfn := arithOf_fn op ar hop
+  have hlogic : op.isLogic = false := by cases op <;> simp [arithOf] at hop <;> rfl
+  have hcmp : cmpOf op = none := by cases op <;> simp [arithOf] at hop <;> rfl
+  -- the sparse side
+  simp only [step, step.opTarget, ha, stepVec, binVec, subOverride, binVecCore, VecObj.isBool, hlogic, hb,
+    VecObj.opSparse, VecObj.toSV, SV.opSparse, hop] at h
+  unfold okRes at h
+  obtain ⟨w, hw, e⟩ := except_map_ok h
+  obtain ⟨v, hv, e2⟩ := except_map_ok hw
+  obtain ⟨c, hc, e3⟩ := except_map_ok hv
+  subst e2 e3
+  simp only [allocRes, Store.alloc, VecObj.toObj, Prod.mk.injEq] at e
+  have hhom := dense_hom_arith_sparse ar false x y c hx hy hc
+  refine ⟨c.copy, e.2, e.1, sv_copy_wf hhom.1, ?_⟩
+  -- the NumPy side
+  have hty : typeOk op false false = true := by cases op <;> simp [arithOf] at hop <;> rfl
+  have hdiv : (op == BinOp.truediv) = false := by
+    cases op <;> simp [arithOf] at hop <;> first | rfl | (subst hop; exact absurd rfl hne)
+  simp only [npSide, Store.toND, ha, hb, wfb_of_WF x hx, wfb_of_WF y hy, ↓reduceIte, Operand.toNDr, Option.map,
+    npBin, ND.vec, hty, Bool.not_true, Bool.false_eq_true, Bool.and_false, maxShape, resBool, BinOp.isCmp]
+  have hnp : np2 op.fn [x.toDense] [y.toDense] = .ok [c.toDense] := by
+    unfold np2
+    simp only [List.length_cons, List.length_nil, ↓reduceIte, List.zip_cons_cons, List.zip_nil_right,
+      List.mapM_cons, List.mapM_nil, hfn, hhom.2]
+    rfl
+  rw [hnp]
+  simp only [hdiv, Bool.false_eq_true, false_and, ↓reduceIte]
+  cases op <;> first | (simp [arithOf] at hop; done) | rfl
+
 end ThermoVerif.Props.C09
